@@ -1,12 +1,12 @@
 """C03 a pattern accepts exactly the headers of its short/long-form language."""
-import glob, os, re
+import itertools, glob, os, re
 import vf, spec, gen
 
 ID = 'C03'
 FLAVORS = ['default', 'strict']
 RULE = ('MATCH lines: pattern (<= 4 keywords from the vocabulary ABc, Xy, ABCd, Q, each optional/numeric or not, +-?; plus every pattern literal shipped in '
         'libscpi/test and examples) x header assembled from the pattern\'s own spellings (short/long, either case, digits, optional keywords present/absent) and near misses; '
-        'numbers array of 4, 1 and NULL; a third of the lines also on a strict ISO C build (-std=c99 without feature-test macros), where the library compares with its own case-insensitive routine. Non-trivial: accepted pairs and rejected pairs whose header shares the first keyword; distinct = distinct (pattern, header, n).')
+        'numbers array of 4, 1 and NULL; four-keyword patterns with optional first and last keyword against headers that stop after 1..4 keywords; a third of the lines also on a strict ISO C build (-std=c99 without feature-test macros), where the library compares with its own case-insensitive routine. Non-trivial: accepted pairs and rejected pairs whose header shares the first keyword; distinct = distinct (pattern, header, n).')
 MODELLED = 'matchCommand/matchPattern/compareStr* are modelled by MatchModel (same cursor arithmetic); SCPI_Match/IsCmd/CommandNumbers are one-line wrappers, exercised through the scenario stream of C02'
 ASSUMPTIONS = ['acceptance is judged only for patterns in which no optional keyword shares a spelling with a keyword that may follow it (the property\'s side condition); other patterns are compared model vs implementation only']
 
@@ -146,6 +146,23 @@ def streams(tier, rng):
                 continue
             n = rng.choice([-1, 4, 4, 1, 2])
             cases.append('MATCH %s %s %d %d' % (vf.hx(p), vf.hx(h), n, rng.choice([-1, 0, 1, 7])))
+    # four-keyword patterns whose first and last keyword are optional (the quick tier samples patterns of up to three keywords),
+    # against headers that stop after one, two or three keywords: a header must spell every mandatory keyword
+    short = {'ABc': 'AB', 'Xy': 'X', 'ABCd': 'ABC', 'Q': 'Q'}
+    for combo in itertools.product(KW, repeat=4):
+        if rng.random() > (0.25 if tier == 'quick' else 1.0):
+            continue
+        for numeric in (False, True):
+            for q in (False, True):
+                items = [(combo[0], True, numeric), (combo[1], False, numeric), (combo[2], False, False), (combo[3], True, False)]
+                p = render(items, q)
+                for first in (True, False):
+                    for k in (1, 2, 3, 4):
+                        ks = list(combo[:k]) if first else list(combo[1:k])
+                        if not ks:
+                            continue
+                        h = ':'.join(short[x] + ('2' if (numeric and rng.random() < 0.5 and i < 2) else '') for i, x in enumerate(ks)) + ('?' if q else '')
+                        cases.append('MATCH %s %s %d %d' % (vf.hx(p), vf.hx(h.lower() if rng.random() < 0.3 else h), rng.choice([-1, 4]), rng.choice([-1, 1])))
     # the regression inputs of the fixed defect (observation 3)
     cases.append('MATCH %s %s 2 -1' % (vf.hx('Xy[:ABc#]'), vf.hx('X')))
     cases.append('MATCH %s %s 3 5' % (vf.hx('Xy#[:ABc#][:Q#]'), vf.hx('XY2')))
